@@ -2,23 +2,18 @@
     repaired model agrees with the reference specification. *)
 From BX Require Import Base.Prelude Model.JsonAcct Model.Merkle Model.StateLedger Model.LedgerSpec
   Proofs.LedgerLemmas Proofs.RootProofs Proofs.RefineBase Proofs.RefineBlock Proofs.RefineUndo Proofs.RefineSim
-  Proofs.RefineStep Proofs.RefineFlush.
+  Proofs.RefineStep Proofs.RefineFlush Proofs.RefineRollback.
 Local Open Scope N_scope.
 
 Section Main.
 Variable e : env.
 
-(** operations covered by the proof so far (the others are tied by correspondence only) *)
+(** operations covered by the proof (the others are tied by correspondence only) *)
 Definition proved_op (o : op) : bool :=
   match o with
-  | Query _ _ | Dump _ _ | Rollback _ | SetCode _ _ | GetCommitted _ _ => false
+  | Query _ _ | Dump _ _ | SetCode _ _ | GetCommitted _ _ => false
   | _ => true
   end.
-
-(** the relation between two steps: either the simulation proper, or "just flushed" *)
-Definition SimT (m : st) (s : spec) : Prop :=
-  Sim e m s \/
-  exists m0 s0, Sim e m0 s0 /\ m = fst (do_flush e m0) /\ s = fst (spec_step e s0 Flush (snd (do_flush e m0))).
 
 Lemma op_eq_flush (o : op) : o = Flush \/ o <> Flush.
 Proof. destruct o; try (right; discriminate). left. reflexivity. Qed.
@@ -37,33 +32,111 @@ Proof.
     + left. split; reflexivity.
 Qed.
 
-Lemma step_dispatch m s o :
-  Sim e m s -> wf_thm_b s o = true -> proved_op o = true -> o <> Flush -> step_ok e m s o.
+Lemma SimC0 : SimC e st0 spec0.
+Proof. split; [apply Sim0 | split; [apply chain0 | constructor]]. Qed.
+
+(** ** the store is only touched by Flush / Commit / Rollback *)
+Lemma get_obj_db m a : s_db (fst (get_obj m a)) = s_db m.
+Proof. unfold get_obj. destruct (aget a (s_objs m)); [reflexivity|]. destruct (load_obj m a); reflexivity. Qed.
+
+Lemma revert_n_db n : forall m, s_db (revert_n e n m) = s_db m.
 Proof.
-  intros S Hwf Hp Hnf. destruct o; try discriminate.
-  - apply step_getbal; exact S.
-  - apply step_getnonce; exact S.
-  - apply step_getcode; exact S.
-  - apply step_getst; exact S.
-  - apply step_setbal; exact S.
-  - apply step_setnonce; exact S.
-  - apply step_setst; exact S.
-  - apply step_addst; exact S.
-  - apply step_snap; exact S.
-  - apply step_revert; assumption.
-  - apply step_finalise; exact S.
-  - apply step_clear; exact S.
-  - contradiction.
-  - apply step_commit_nopend; exact S.
-  - apply step_version; exact S.
-  - apply step_reopen; exact S.
-  - apply step_evict; assumption.
-  - apply step_dbdump; exact S.
+  induction n as [|n IH]; intro m; [reflexivity|]. cbn [revert_n]. destruct (s_chg m) as [|c t]; [reflexivity|].
+  rewrite IH. destruct (revert_change_views e (set_chg m t) c) as [D _]. rewrite D. reflexivity.
 Qed.
+
+Lemma step_db m o : proved_op o = true ->
+  match o with Flush | Commit _ | Rollback _ => True | _ => s_db (fst (step e cfg_fixed m o)) = s_db m end.
+Proof.
+  intro Hp. destruct o; try exact Logic.I; try discriminate; cbn [step].
+  - unfold do_getbal. pose proof (get_obj_db m a). destruct (get_obj m a). exact H.
+  - unfold do_getnonce. pose proof (get_obj_db m a). destruct (get_obj m a). exact H.
+  - unfold do_getcode. pose proof (get_obj_db m a). destruct (get_obj m a) as [m1 o]. destruct (obj_code m1 a o). exact H.
+  - unfold do_getst. pose proof (get_obj_db m a). destruct (get_obj m a) as [m1 o]. destruct (obj_get_state m1 a o k). exact H.
+  - unfold do_setbal. pose proof (get_obj_db m a). destruct (get_obj m a) as [m1 o]. exact H.
+  - unfold do_setnonce. pose proof (get_obj_db m a). destruct (get_obj m a) as [m1 o]. exact H.
+  - unfold do_setst. pose proof (get_obj_db m a). destruct (get_obj m a) as [m1 o]. destruct (obj_get_state m1 a o k). exact H.
+  - unfold do_addst. pose proof (get_obj_db m a). destruct (get_obj m a) as [m1 o]. exact H.
+  - reflexivity.
+  - unfold do_revert. destruct (alookup N.eqb id (s_revs m)); [| reflexivity]. cbn [fst]. apply revert_n_db.
+  - unfold do_finalise. destruct (s_chg m); reflexivity.
+  - reflexivity.
+  - reflexivity.
+  - unfold do_reopen. destruct (d_max (s_db m) =? 0); [reflexivity|]. destruct (aget _ _); reflexivity.
+  - unfold do_evict. reflexivity.
+  - reflexivity.
+Qed.
+
+Lemma spec_frame s o x : proved_op o = true ->
+  match o with
+  | Flush | Commit _ | Rollback _ => True
+  | _ => let s' := fst (spec_step e s o x) in
+         sp_hist s' = sp_hist s /\ sp_min s' = sp_min s /\ sp_max s' = sp_max s /\ sp_fl s' = sp_fl s /\ sp_prev s' = sp_prev s
+  end.
+Proof.
+  intro Hp. destruct o; try exact Logic.I; try discriminate; cbn [spec_step]; cbv zeta; try (repeat split; fail).
+  destruct (alookup N.eqb id (sp_snaps s)) as [[sv t]|]; repeat split.
+Qed.
+
+(** ** one step, chain included *)
+Definition stepC_ok (m : st) (s : spec) (o : op) : Prop :=
+  let '(m', x) := step e cfg_fixed m o in
+  let '(s', ex) := spec_step e s o x in
+  SimC e m' s' /\ sexp_match false ex x = true.
+
+Lemma stepC_dispatch m s o :
+  SimC e m s -> wf_thm_b s o = true -> proved_op o = true -> o <> Flush -> stepC_ok m s o.
+Proof.
+  intros [S [K Hnd]] Hwf Hp Hnf. unfold stepC_ok.
+  destruct (match o with Rollback _ => true | _ => false end) eqn:Erb.
+  { destruct o; try discriminate. apply (step_rollback e m s h); [split; [exact S | split; assumption] | exact Hwf]. }
+  destruct (match o with Commit _ => true | _ => false end) eqn:Ecm.
+  { destruct o; try discriminate. pose proof (step_commit_nopend e m s h S) as SO. unfold step_ok in SO.
+    cbn [step spec_step] in *. unfold do_commit in *.
+    rewrite (coh_pend m (sim_coh e m s S)), (nu_pend m s (sim_num e m s S)) in *.
+    split; [split; [exact S | split; assumption] | reflexivity]. }
+  assert (SO : step_ok e m s o).
+  { destruct o; try discriminate; try contradiction.
+    - apply step_getbal; exact S.
+    - apply step_getnonce; exact S.
+    - apply step_getcode; exact S.
+    - apply step_getst; exact S.
+    - apply step_setbal; exact S.
+    - apply step_setnonce; exact S.
+    - apply step_setst; exact S.
+    - apply step_addst; exact S.
+    - apply step_snap; exact S.
+    - apply step_revert; assumption.
+    - apply step_finalise; exact S.
+    - apply step_clear; exact S.
+    - apply step_version; exact S.
+    - apply step_reopen; exact S.
+    - apply step_evict; assumption.
+    - apply step_dbdump; exact S. }
+  unfold step_ok in SO.
+  pose proof (step_db m o Hp) as Hdb.
+  destruct (step e cfg_fixed m o) as [m' x] eqn:Est.
+  pose proof (spec_frame s o x Hp) as Hsf.
+  destruct (spec_step e s o x) as [s' ex] eqn:Esp.
+  destruct SO as [S' Hm]. split; [| exact Hm].
+  assert (F : s_db m' = s_db m /\ sp_hist s' = sp_hist s /\ sp_min s' = sp_min s /\ sp_max s' = sp_max s /\
+              sp_fl s' = sp_fl s /\ sp_prev s' = sp_prev s).
+  { destruct o; try discriminate; try contradiction; cbn [fst] in *; (split; [exact Hdb | exact Hsf]). }
+  destruct F as [F1 [F2 [F3 [F4 [F5 F6]]]]].
+  split; [exact S' | split; [apply (chain_frame m m' s s'); assumption | rewrite F2; exact Hnd]].
+Qed.
+
+(** the relation between two steps: either the simulation proper, or "just flushed" *)
+Definition SimT (m : st) (s : spec) : Prop :=
+  SimC e m s \/
+  exists m0 s0, SimC e m0 s0 /\ m = fst (do_flush e m0) /\ s = fst (spec_step e s0 Flush (snd (do_flush e m0))).
 
 Lemma spec_flush_pend s x : sp_pend (fst (spec_step e s Flush x)) = true /\
   sp_max (fst (spec_step e s Flush x)) = sp_max s.
 Proof. cbn [spec_step fst sp_pend sp_max]. split; reflexivity. Qed.
+
+Lemma aset_keys_NoDup {V} (l : list (N * V)) h x : NoDup (map fst l) -> NoDup (map fst (aset N.eqb h x l)).
+Proof. apply (aset_NoDup N.eqb N_eqb_spec). Qed.
 
 Theorem refine_run : forall ops m s,
   SimT m s -> forallb proved_op ops = true ->
@@ -81,16 +154,18 @@ Proof.
       cbn [step] in Est. split; [reflexivity|].
       rewrite Hxs. apply IH; [| exact Hpt].
       right. exists m, s. split; [exact S|]. rewrite Est. split; reflexivity.
-    + pose proof (step_dispatch m s o S Hwf Hpo Hnf) as SO. unfold step_ok in SO. rewrite Est in SO.
+    + pose proof (stepC_dispatch m s o S Hwf Hpo Hnf) as SO. unfold stepC_ok in SO. rewrite Est in SO.
       destruct (spec_step e s o x) as [s1 ex] eqn:Esp. destruct SO as [S1 Hm1].
       cbn [fst snd]. split; [exact Hm1|]. rewrite Hxs. apply IH; [left; exact S1 | exact Hpt].
   - (* after a flush only the commit of the next height is inside the domain *)
+    destruct S0 as [S0 [K0 Hnd0]].
     destruct (spec_flush_pend s0 (snd (do_flush e m0))) as [Hpend Hmax]. rewrite <- Hs in Hpend, Hmax.
     unfold wf_thm_b, wf_op_b in Hwf. rewrite Hpend in Hwf.
     destruct o; try (rewrite ?andb_false_r in Hwf; cbn [andb read_only] in Hwf; discriminate).
     rewrite !andb_true_iff in Hwf. destruct Hwf as [[[Hh _] _] _]. apply N.eqb_eq in Hh. rewrite Hmax in Hh.
     destruct (ftc_fields e m0 h (sim_inv e m0 s0 S0)) as [_ [_ [_ [_ [_ [_ [_ [_ [_ [_ [_ [_ [_ [_ [_ [Hco Hfo]]]]]]]]]]]]]]]].
     pose proof (flush_commit_sim e m0 s0 h S0 Hh) as S2.
+    pose proof (flush_commit_chain e m0 s0 h S0 K0 Hh) as K2.
     cbn [step] in Est. rewrite Hm in Est.
     assert (Hx : x = ORes R_ok) by (rewrite <- Hco, Est; reflexivity).
     assert (Hm1 : m1 = flush_then_commit e m0 h) by (unfold flush_then_commit; rewrite Est; reflexivity).
@@ -100,12 +175,13 @@ Proof.
       with (spec_flush_commit e s0 (root_of e m0) (isort n_leb (map fst (dirty_objs m0))) h).
     split.
     + cbn [spec_step fst sp_pend snd]. reflexivity.
-    + rewrite Hxs. apply IH; [| exact Hpt]. left. rewrite Hm1. exact S2.
+    + rewrite Hxs. apply IH; [| exact Hpt]. left. rewrite Hm1. split; [exact S2 | split; [exact K2|]].
+      unfold spec_flush_commit. cbn [spec_step fst sp_pend sp_hist]. apply aset_keys_NoDup. exact Hnd0.
 Qed.
 
 (** from the initial (empty) ledger *)
 Corollary refine_from_empty : forall ops,
   forallb proved_op ops = true ->
   spec_agree_P wf_thm_b false e spec0 ops (snd (run e cfg_fixed st0 ops)).
-Proof. intros ops Hp. apply refine_run; [left; apply Sim0 | exact Hp]. Qed.
+Proof. intros ops Hp. apply refine_run; [left; apply SimC0 | exact Hp]. Qed.
 End Main.
